@@ -333,12 +333,20 @@ pub fn block_builder_of(b: &Value, pool: &[String], keys: &Keys) -> Result<Block
 
 /// builds the token of a case through the public API: authority, then first- and third-party blocks
 pub fn build_token(blocks: &[Value], pool: &[String], keys: &Keys) -> Result<Biscuit, error::Token> {
+    build_token_on(blocks, pool, keys, None)
+}
+
+/// the same token built on a symbol table the application supplies (`build_with_symbols`)
+pub fn build_token_on(blocks: &[Value], pool: &[String], keys: &Keys, base: Option<biscuit_auth::datalog::SymbolTable>) -> Result<Biscuit, error::Token> {
     let first = block_builder_of(&blocks[0], pool, keys)?;
     let mut token = BiscuitBuilder::new().merge(first.clone());
     for s in blocks[0]["sc"].as_array().unwrap() {
         token = token.scope(scope_b(s, keys));
     }
-    let mut token = token.build(&keys.root)?;
+    let mut token = match base {
+        None => token.build(&keys.root)?,
+        Some(t) => token.build_with_symbols(&keys.root, t)?,
+    };
     for b in &blocks[1..] {
         let bb = block_builder_of(b, pool, keys)?;
         token = match b["ext"].as_u64() {
